@@ -318,7 +318,7 @@ def main():
     chk.assumptions = ['refxpath is the reference; dynamic errors of the reference are skipped', 'namespace-axis results are compared by size only',
                        'generated text is BMP only; supplementary characters in the string functions are looked at by a separate probe (listed finding)']
     chk.ensure(FLAVOUR, 'xvdrv')
-    n = 500 if chk.tier == 'quick' else 50000
+    n = 1500 if chk.tier == 'quick' else 50000
     chk.run_cases('c02', 'case', range(n))
     chk.run_cases('c02', 'astral_probe', range(len(ASTRAL)))
     chk.finish(min_nontrivial=200, required_stats=('valid_evaluated', 'invalid_rejected'))
